@@ -9,7 +9,19 @@ pub fn k_c10_filter_exact() {
 }
 
 #[kani::proof]
+pub fn k_c10_filter_exact_playback() {
+    unsafe { crate::src::REACH_OFF = true; }
+    crate::ob::c10::filter_exact(&mut KaniSrc);
+}
+
+#[kani::proof]
 pub fn k_c10_constants() {
+    crate::ob::c10::constants(&mut KaniSrc);
+}
+
+#[kani::proof]
+pub fn k_c10_constants_playback() {
+    unsafe { crate::src::REACH_OFF = true; }
     crate::ob::c10::constants(&mut KaniSrc);
 }
 
@@ -19,7 +31,19 @@ pub fn k_c10_create() {
 }
 
 #[kani::proof]
+pub fn k_c10_create_playback() {
+    unsafe { crate::src::REACH_OFF = true; }
+    crate::ob::c10::create(&mut KaniSrc);
+}
+
+#[kani::proof]
 pub fn k_c10_accessors() {
+    crate::ob::c10::accessors(&mut KaniSrc);
+}
+
+#[kani::proof]
+pub fn k_c10_accessors_playback() {
+    unsafe { crate::src::REACH_OFF = true; }
     crate::ob::c10::accessors(&mut KaniSrc);
 }
 
@@ -31,12 +55,32 @@ pub fn k_c20_flags() {
 
 #[kani::proof]
 #[kani::unwind(5)]
+pub fn k_c20_flags_playback() {
+    unsafe { crate::src::REACH_OFF = true; }
+    crate::ob::c20::flags(&mut KaniSrc);
+}
+
+#[kani::proof]
+#[kani::unwind(5)]
 pub fn k_c20_order() {
     crate::ob::c20::order(&mut KaniSrc);
 }
 
 #[kani::proof]
+#[kani::unwind(5)]
+pub fn k_c20_order_playback() {
+    unsafe { crate::src::REACH_OFF = true; }
+    crate::ob::c20::order(&mut KaniSrc);
+}
+
+#[kani::proof]
 pub fn k_c11_card_order() {
+    crate::ob::c11::card_order(&mut KaniSrc);
+}
+
+#[kani::proof]
+pub fn k_c11_card_order_playback() {
+    unsafe { crate::src::REACH_OFF = true; }
     crate::ob::c11::card_order(&mut KaniSrc);
 }
 
@@ -47,8 +91,22 @@ pub fn k_c11_sort_2() {
 }
 
 #[kani::proof]
+#[kani::unwind(11)]
+pub fn k_c11_sort_2_playback() {
+    unsafe { crate::src::REACH_OFF = true; }
+    crate::ob::c11::sort_2(&mut KaniSrc);
+}
+
+#[kani::proof]
 #[kani::unwind(15)]
 pub fn k_c11_sort_3() {
+    crate::ob::c11::sort_3(&mut KaniSrc);
+}
+
+#[kani::proof]
+#[kani::unwind(15)]
+pub fn k_c11_sort_3_playback() {
+    unsafe { crate::src::REACH_OFF = true; }
     crate::ob::c11::sort_3(&mut KaniSrc);
 }
 
@@ -59,8 +117,22 @@ pub fn k_c11_sort_4() {
 }
 
 #[kani::proof]
+#[kani::unwind(19)]
+pub fn k_c11_sort_4_playback() {
+    unsafe { crate::src::REACH_OFF = true; }
+    crate::ob::c11::sort_4(&mut KaniSrc);
+}
+
+#[kani::proof]
 #[kani::unwind(23)]
 pub fn k_c11_sort_5() {
+    crate::ob::c11::sort_5(&mut KaniSrc);
+}
+
+#[kani::proof]
+#[kani::unwind(23)]
+pub fn k_c11_sort_5_playback() {
+    unsafe { crate::src::REACH_OFF = true; }
     crate::ob::c11::sort_5(&mut KaniSrc);
 }
 
@@ -71,8 +143,22 @@ pub fn k_c11_sort_6() {
 }
 
 #[kani::proof]
+#[kani::unwind(27)]
+pub fn k_c11_sort_6_playback() {
+    unsafe { crate::src::REACH_OFF = true; }
+    crate::ob::c11::sort_6(&mut KaniSrc);
+}
+
+#[kani::proof]
 #[kani::unwind(31)]
 pub fn k_c11_sort_7() {
+    crate::ob::c11::sort_7(&mut KaniSrc);
+}
+
+#[kani::proof]
+#[kani::unwind(31)]
+pub fn k_c11_sort_7_playback() {
+    unsafe { crate::src::REACH_OFF = true; }
     crate::ob::c11::sort_7(&mut KaniSrc);
 }
 
@@ -83,8 +169,22 @@ pub fn k_c19_two() {
 }
 
 #[kani::proof]
+#[kani::unwind(11)]
+pub fn k_c19_two_playback() {
+    unsafe { crate::src::REACH_OFF = true; }
+    crate::ob::c19::two(&mut KaniSrc);
+}
+
+#[kani::proof]
 #[kani::unwind(15)]
 pub fn k_c19_three() {
+    crate::ob::c19::three(&mut KaniSrc);
+}
+
+#[kani::proof]
+#[kani::unwind(15)]
+pub fn k_c19_three_playback() {
+    unsafe { crate::src::REACH_OFF = true; }
     crate::ob::c19::three(&mut KaniSrc);
 }
 
@@ -95,14 +195,35 @@ pub fn k_c19_four() {
 }
 
 #[kani::proof]
+#[kani::unwind(19)]
+pub fn k_c19_four_playback() {
+    unsafe { crate::src::REACH_OFF = true; }
+    crate::ob::c19::four(&mut KaniSrc);
+}
+
+#[kani::proof]
 #[kani::unwind(23)]
 pub fn k_c19_five() {
     crate::ob::c19::five(&mut KaniSrc);
 }
 
 #[kani::proof]
+#[kani::unwind(23)]
+pub fn k_c19_five_playback() {
+    unsafe { crate::src::REACH_OFF = true; }
+    crate::ob::c19::five(&mut KaniSrc);
+}
+
+#[kani::proof]
 #[kani::unwind(27)]
 pub fn k_c19_six() {
+    crate::ob::c19::six(&mut KaniSrc);
+}
+
+#[kani::proof]
+#[kani::unwind(27)]
+pub fn k_c19_six_playback() {
+    unsafe { crate::src::REACH_OFF = true; }
     crate::ob::c19::six(&mut KaniSrc);
 }
 
@@ -114,7 +235,21 @@ pub fn k_c19_seven() {
 
 #[kani::proof]
 #[kani::unwind(31)]
+pub fn k_c19_seven_playback() {
+    unsafe { crate::src::REACH_OFF = true; }
+    crate::ob::c19::seven(&mut KaniSrc);
+}
+
+#[kani::proof]
+#[kani::unwind(31)]
 pub fn k_c19_seven_two_writes() {
+    crate::ob::c19::seven_two_writes(&mut KaniSrc);
+}
+
+#[kani::proof]
+#[kani::unwind(31)]
+pub fn k_c19_seven_two_writes_playback() {
+    unsafe { crate::src::REACH_OFF = true; }
     crate::ob::c19::seven_two_writes(&mut KaniSrc);
 }
 
@@ -124,12 +259,30 @@ pub fn k_c14_from_ckc() {
 }
 
 #[kani::proof]
+pub fn k_c14_from_ckc_playback() {
+    unsafe { crate::src::REACH_OFF = true; }
+    crate::ob::c14::from_ckc(&mut KaniSrc);
+}
+
+#[kani::proof]
 pub fn k_c14_from_binary_card() {
     crate::ob::c14::from_binary_card(&mut KaniSrc);
 }
 
 #[kani::proof]
+pub fn k_c14_from_binary_card_playback() {
+    unsafe { crate::src::REACH_OFF = true; }
+    crate::ob::c14::from_binary_card(&mut KaniSrc);
+}
+
+#[kani::proof]
 pub fn k_c14_round_trip() {
+    crate::ob::c14::round_trip(&mut KaniSrc);
+}
+
+#[kani::proof]
+pub fn k_c14_round_trip_playback() {
+    unsafe { crate::src::REACH_OFF = true; }
     crate::ob::c14::round_trip(&mut KaniSrc);
 }
 
@@ -141,7 +294,21 @@ pub fn k_c15_from_2() {
 
 #[kani::proof]
 #[kani::unwind(4)]
+pub fn k_c15_from_2_playback() {
+    unsafe { crate::src::REACH_OFF = true; }
+    crate::ob::c15::from_2(&mut KaniSrc);
+}
+
+#[kani::proof]
+#[kani::unwind(4)]
 pub fn k_c15_count_2() {
+    crate::ob::c15::count_2(&mut KaniSrc);
+}
+
+#[kani::proof]
+#[kani::unwind(4)]
+pub fn k_c15_count_2_playback() {
+    unsafe { crate::src::REACH_OFF = true; }
     crate::ob::c15::count_2(&mut KaniSrc);
 }
 
@@ -153,7 +320,21 @@ pub fn k_c15_from_3() {
 
 #[kani::proof]
 #[kani::unwind(5)]
+pub fn k_c15_from_3_playback() {
+    unsafe { crate::src::REACH_OFF = true; }
+    crate::ob::c15::from_3(&mut KaniSrc);
+}
+
+#[kani::proof]
+#[kani::unwind(5)]
 pub fn k_c15_count_3() {
+    crate::ob::c15::count_3(&mut KaniSrc);
+}
+
+#[kani::proof]
+#[kani::unwind(5)]
+pub fn k_c15_count_3_playback() {
+    unsafe { crate::src::REACH_OFF = true; }
     crate::ob::c15::count_3(&mut KaniSrc);
 }
 
@@ -165,7 +346,21 @@ pub fn k_c15_from_4() {
 
 #[kani::proof]
 #[kani::unwind(6)]
+pub fn k_c15_from_4_playback() {
+    unsafe { crate::src::REACH_OFF = true; }
+    crate::ob::c15::from_4(&mut KaniSrc);
+}
+
+#[kani::proof]
+#[kani::unwind(6)]
 pub fn k_c15_count_4() {
+    crate::ob::c15::count_4(&mut KaniSrc);
+}
+
+#[kani::proof]
+#[kani::unwind(6)]
+pub fn k_c15_count_4_playback() {
+    unsafe { crate::src::REACH_OFF = true; }
     crate::ob::c15::count_4(&mut KaniSrc);
 }
 
@@ -177,7 +372,21 @@ pub fn k_c15_from_5() {
 
 #[kani::proof]
 #[kani::unwind(7)]
+pub fn k_c15_from_5_playback() {
+    unsafe { crate::src::REACH_OFF = true; }
+    crate::ob::c15::from_5(&mut KaniSrc);
+}
+
+#[kani::proof]
+#[kani::unwind(7)]
 pub fn k_c15_count_5() {
+    crate::ob::c15::count_5(&mut KaniSrc);
+}
+
+#[kani::proof]
+#[kani::unwind(7)]
+pub fn k_c15_count_5_playback() {
+    unsafe { crate::src::REACH_OFF = true; }
     crate::ob::c15::count_5(&mut KaniSrc);
 }
 
@@ -189,7 +398,21 @@ pub fn k_c15_from_6() {
 
 #[kani::proof]
 #[kani::unwind(8)]
+pub fn k_c15_from_6_playback() {
+    unsafe { crate::src::REACH_OFF = true; }
+    crate::ob::c15::from_6(&mut KaniSrc);
+}
+
+#[kani::proof]
+#[kani::unwind(8)]
 pub fn k_c15_count_6() {
+    crate::ob::c15::count_6(&mut KaniSrc);
+}
+
+#[kani::proof]
+#[kani::unwind(8)]
+pub fn k_c15_count_6_playback() {
+    unsafe { crate::src::REACH_OFF = true; }
     crate::ob::c15::count_6(&mut KaniSrc);
 }
 
@@ -201,7 +424,21 @@ pub fn k_c15_from_7() {
 
 #[kani::proof]
 #[kani::unwind(9)]
+pub fn k_c15_from_7_playback() {
+    unsafe { crate::src::REACH_OFF = true; }
+    crate::ob::c15::from_7(&mut KaniSrc);
+}
+
+#[kani::proof]
+#[kani::unwind(9)]
 pub fn k_c15_count_7() {
+    crate::ob::c15::count_7(&mut KaniSrc);
+}
+
+#[kani::proof]
+#[kani::unwind(9)]
+pub fn k_c15_count_7_playback() {
+    unsafe { crate::src::REACH_OFF = true; }
     crate::ob::c15::count_7(&mut KaniSrc);
 }
 
@@ -213,7 +450,21 @@ pub fn k_c15_set_ops() {
 
 #[kani::proof]
 #[kani::unwind(66)]
+pub fn k_c15_set_ops_playback() {
+    unsafe { crate::src::REACH_OFF = true; }
+    crate::ob::c15::set_ops(&mut KaniSrc);
+}
+
+#[kani::proof]
+#[kani::unwind(66)]
 pub fn k_c15_peel() {
+    crate::ob::c15::peel(&mut KaniSrc);
+}
+
+#[kani::proof]
+#[kani::unwind(66)]
+pub fn k_c15_peel_playback() {
+    unsafe { crate::src::REACH_OFF = true; }
     crate::ob::c15::peel(&mut KaniSrc);
 }
 
@@ -225,7 +476,21 @@ pub fn k_c15_peel_twice() {
 
 #[kani::proof]
 #[kani::unwind(66)]
+pub fn k_c15_peel_twice_playback() {
+    unsafe { crate::src::REACH_OFF = true; }
+    crate::ob::c15::peel_twice(&mut KaniSrc);
+}
+
+#[kani::proof]
+#[kani::unwind(66)]
 pub fn k_c16_try_from() {
+    crate::ob::c16::try_from(&mut KaniSrc);
+}
+
+#[kani::proof]
+#[kani::unwind(66)]
+pub fn k_c16_try_from_playback() {
+    unsafe { crate::src::REACH_OFF = true; }
     crate::ob::c16::try_from(&mut KaniSrc);
 }
 
@@ -236,12 +501,31 @@ pub fn k_c17_chen() {
 }
 
 #[kani::proof]
+#[kani::unwind(5)]
+pub fn k_c17_chen_playback() {
+    unsafe { crate::src::REACH_OFF = true; }
+    crate::ob::c17::chen_formula(&mut KaniSrc);
+}
+
+#[kani::proof]
 pub fn k_c17_chen_points() {
     crate::ob::c17::chen_points(&mut KaniSrc);
 }
 
 #[kani::proof]
+pub fn k_c17_chen_points_playback() {
+    unsafe { crate::src::REACH_OFF = true; }
+    crate::ob::c17::chen_points(&mut KaniSrc);
+}
+
+#[kani::proof]
 pub fn k_c18_deck() {
+    crate::ob::c18::deck(&mut KaniSrc);
+}
+
+#[kani::proof]
+pub fn k_c18_deck_playback() {
+    unsafe { crate::src::REACH_OFF = true; }
     crate::ob::c18::deck(&mut KaniSrc);
 }
 
@@ -252,8 +536,22 @@ pub fn k_c18_presets() {
 }
 
 #[kani::proof]
+#[kani::unwind(18)]
+pub fn k_c18_presets_playback() {
+    unsafe { crate::src::REACH_OFF = true; }
+    crate::ob::c18::presets(&mut KaniSrc);
+}
+
+#[kani::proof]
 #[kani::unwind(23)]
 pub fn k_c18_slot_tables() {
+    crate::ob::c18::slot_tables(&mut KaniSrc);
+}
+
+#[kani::proof]
+#[kani::unwind(23)]
+pub fn k_c18_slot_tables_playback() {
+    unsafe { crate::src::REACH_OFF = true; }
     crate::ob::c18::slot_tables(&mut KaniSrc);
 }
 
@@ -264,8 +562,22 @@ pub fn k_c13_predicates() {
 }
 
 #[kani::proof]
+#[kani::unwind(7)]
+pub fn k_c13_predicates_playback() {
+    unsafe { crate::src::REACH_OFF = true; }
+    crate::ob::c13::predicates(&mut KaniSrc);
+}
+
+#[kani::proof]
 #[kani::unwind(12)]
 pub fn k_c06_name_class_all() {
+    crate::ob::c06::name_class_all(&mut KaniSrc);
+}
+
+#[kani::proof]
+#[kani::unwind(12)]
+pub fn k_c06_name_class_all_playback() {
+    unsafe { crate::src::REACH_OFF = true; }
     crate::ob::c06::name_class_all(&mut KaniSrc);
 }
 
@@ -275,7 +587,19 @@ pub fn k_c06_class_ranges() {
 }
 
 #[kani::proof]
+pub fn k_c06_class_ranges_playback() {
+    unsafe { crate::src::REACH_OFF = true; }
+    crate::ob::c06::class_ranges(&mut KaniSrc);
+}
+
+#[kani::proof]
 pub fn k_c06_class_table_order() {
+    crate::ob::c06::class_table_order(&mut KaniSrc);
+}
+
+#[kani::proof]
+pub fn k_c06_class_table_order_playback() {
+    unsafe { crate::src::REACH_OFF = true; }
     crate::ob::c06::class_table_order(&mut KaniSrc);
 }
 
@@ -285,7 +609,19 @@ pub fn k_c07_pair_laws() {
 }
 
 #[kani::proof]
+pub fn k_c07_pair_laws_playback() {
+    unsafe { crate::src::REACH_OFF = true; }
+    crate::ob::c07::pair_laws(&mut KaniSrc);
+}
+
+#[kani::proof]
 pub fn k_c07_transitive() {
+    crate::ob::c07::transitive(&mut KaniSrc);
+}
+
+#[kani::proof]
+pub fn k_c07_transitive_playback() {
+    unsafe { crate::src::REACH_OFF = true; }
     crate::ob::c07::transitive(&mut KaniSrc);
 }
 
@@ -295,7 +631,19 @@ pub fn k_c07_enum_monotone() {
 }
 
 #[kani::proof]
+pub fn k_c07_enum_monotone_playback() {
+    unsafe { crate::src::REACH_OFF = true; }
+    crate::ob::c07::enum_monotone(&mut KaniSrc);
+}
+
+#[kani::proof]
 pub fn k_c08_card_cycle() {
+    crate::ob::c08::card_cycle(&mut KaniSrc);
+}
+
+#[kani::proof]
+pub fn k_c08_card_cycle_playback() {
+    unsafe { crate::src::REACH_OFF = true; }
     crate::ob::c08::card_cycle(&mut KaniSrc);
 }
 
@@ -306,8 +654,22 @@ pub fn k_c08_slotwise_2() {
 }
 
 #[kani::proof]
+#[kani::unwind(4)]
+pub fn k_c08_slotwise_2_playback() {
+    unsafe { crate::src::REACH_OFF = true; }
+    crate::ob::c08::slotwise_2(&mut KaniSrc);
+}
+
+#[kani::proof]
 #[kani::unwind(5)]
 pub fn k_c08_slotwise_3() {
+    crate::ob::c08::slotwise_3(&mut KaniSrc);
+}
+
+#[kani::proof]
+#[kani::unwind(5)]
+pub fn k_c08_slotwise_3_playback() {
+    unsafe { crate::src::REACH_OFF = true; }
     crate::ob::c08::slotwise_3(&mut KaniSrc);
 }
 
@@ -318,8 +680,22 @@ pub fn k_c08_slotwise_4() {
 }
 
 #[kani::proof]
+#[kani::unwind(6)]
+pub fn k_c08_slotwise_4_playback() {
+    unsafe { crate::src::REACH_OFF = true; }
+    crate::ob::c08::slotwise_4(&mut KaniSrc);
+}
+
+#[kani::proof]
 #[kani::unwind(7)]
 pub fn k_c08_slotwise_5() {
+    crate::ob::c08::slotwise_5(&mut KaniSrc);
+}
+
+#[kani::proof]
+#[kani::unwind(7)]
+pub fn k_c08_slotwise_5_playback() {
+    unsafe { crate::src::REACH_OFF = true; }
     crate::ob::c08::slotwise_5(&mut KaniSrc);
 }
 
@@ -330,8 +706,22 @@ pub fn k_c08_slotwise_6() {
 }
 
 #[kani::proof]
+#[kani::unwind(8)]
+pub fn k_c08_slotwise_6_playback() {
+    unsafe { crate::src::REACH_OFF = true; }
+    crate::ob::c08::slotwise_6(&mut KaniSrc);
+}
+
+#[kani::proof]
 #[kani::unwind(9)]
 pub fn k_c08_slotwise_7() {
+    crate::ob::c08::slotwise_7(&mut KaniSrc);
+}
+
+#[kani::proof]
+#[kani::unwind(9)]
+pub fn k_c08_slotwise_7_playback() {
+    unsafe { crate::src::REACH_OFF = true; }
     crate::ob::c08::slotwise_7(&mut KaniSrc);
 }
 
@@ -342,8 +732,22 @@ pub fn k_c08_five_triple() {
 }
 
 #[kani::proof]
+#[kani::unwind(7)]
+pub fn k_c08_five_triple_playback() {
+    unsafe { crate::src::REACH_OFF = true; }
+    crate::ob::c08::five_triple(&mut KaniSrc);
+}
+
+#[kani::proof]
 #[kani::unwind(5)]
 pub fn k_c04_valid_2() {
+    crate::ob::c04::valid_2(&mut KaniSrc);
+}
+
+#[kani::proof]
+#[kani::unwind(5)]
+pub fn k_c04_valid_2_playback() {
+    unsafe { crate::src::REACH_OFF = true; }
     crate::ob::c04::valid_2(&mut KaniSrc);
 }
 
@@ -354,8 +758,22 @@ pub fn k_c04_valid_3() {
 }
 
 #[kani::proof]
+#[kani::unwind(6)]
+pub fn k_c04_valid_3_playback() {
+    unsafe { crate::src::REACH_OFF = true; }
+    crate::ob::c04::valid_3(&mut KaniSrc);
+}
+
+#[kani::proof]
 #[kani::unwind(7)]
 pub fn k_c04_valid_4() {
+    crate::ob::c04::valid_4(&mut KaniSrc);
+}
+
+#[kani::proof]
+#[kani::unwind(7)]
+pub fn k_c04_valid_4_playback() {
+    unsafe { crate::src::REACH_OFF = true; }
     crate::ob::c04::valid_4(&mut KaniSrc);
 }
 
@@ -366,8 +784,22 @@ pub fn k_c04_valid_5() {
 }
 
 #[kani::proof]
+#[kani::unwind(8)]
+pub fn k_c04_valid_5_playback() {
+    unsafe { crate::src::REACH_OFF = true; }
+    crate::ob::c04::valid_5(&mut KaniSrc);
+}
+
+#[kani::proof]
 #[kani::unwind(9)]
 pub fn k_c04_valid_6() {
+    crate::ob::c04::valid_6(&mut KaniSrc);
+}
+
+#[kani::proof]
+#[kani::unwind(9)]
+pub fn k_c04_valid_6_playback() {
+    unsafe { crate::src::REACH_OFF = true; }
     crate::ob::c04::valid_6(&mut KaniSrc);
 }
 
@@ -378,12 +810,31 @@ pub fn k_c04_valid_7() {
 }
 
 #[kani::proof]
+#[kani::unwind(10)]
+pub fn k_c04_valid_7_playback() {
+    unsafe { crate::src::REACH_OFF = true; }
+    crate::ob::c04::valid_7(&mut KaniSrc);
+}
+
+#[kani::proof]
 pub fn k_c12_rank_char() {
     crate::ob::c12::rank_char(&mut KaniSrc);
 }
 
 #[kani::proof]
+pub fn k_c12_rank_char_playback() {
+    unsafe { crate::src::REACH_OFF = true; }
+    crate::ob::c12::rank_char(&mut KaniSrc);
+}
+
+#[kani::proof]
 pub fn k_c12_suit_char() {
+    crate::ob::c12::suit_char(&mut KaniSrc);
+}
+
+#[kani::proof]
+pub fn k_c12_suit_char_playback() {
+    unsafe { crate::src::REACH_OFF = true; }
     crate::ob::c12::suit_char(&mut KaniSrc);
 }
 
@@ -395,7 +846,21 @@ pub fn k_c12_render_parse() {
 
 #[kani::proof]
 #[kani::unwind(6)]
+pub fn k_c12_render_parse_playback() {
+    unsafe { crate::src::REACH_OFF = true; }
+    crate::ob::c12::render_parse(&mut KaniSrc);
+}
+
+#[kani::proof]
+#[kani::unwind(6)]
 pub fn k_c12_two_chars() {
+    crate::ob::c12::two_chars(&mut KaniSrc);
+}
+
+#[kani::proof]
+#[kani::unwind(6)]
+pub fn k_c12_two_chars_playback() {
+    unsafe { crate::src::REACH_OFF = true; }
     crate::ob::c12::two_chars(&mut KaniSrc);
 }
 
@@ -403,5 +868,482 @@ pub fn k_c12_two_chars() {
 #[kani::unwind(6)]
 pub fn k_c12_short_tokens() {
     crate::ob::c12::short_tokens(&mut KaniSrc);
+}
+
+#[kani::proof]
+#[kani::unwind(6)]
+pub fn k_c12_short_tokens_playback() {
+    unsafe { crate::src::REACH_OFF = true; }
+    crate::ob::c12::short_tokens(&mut KaniSrc);
+}
+
+#[kani::proof]
+pub fn k_c05_products_floor() {
+    crate::ob::c05::products_floor(&mut KaniSrc);
+}
+
+#[kani::proof]
+pub fn k_c05_products_floor_playback() {
+    unsafe { crate::src::REACH_OFF = true; }
+    crate::ob::c05::products_floor(&mut KaniSrc);
+}
+
+#[kani::proof]
+#[kani::unwind(9)]
+#[kani::stub(ckc_rs::cards::five::Five::find_in_products, crate::stubs::find_in_products_contract)]
+pub fn k_c05_five_safe() {
+    crate::ob::c05::five_safe(&mut KaniSrc);
+}
+
+#[kani::proof]
+#[kani::unwind(9)]
+#[kani::stub(ckc_rs::cards::five::Five::find_in_products, crate::stubs::find_in_products_contract)]
+pub fn k_c05_five_safe_playback() {
+    unsafe { crate::src::REACH_OFF = true; }
+    crate::ob::c05::five_safe(&mut KaniSrc);
+}
+
+#[kani::proof]
+#[kani::unwind(15)]
+pub fn k_c05_blank_five_invalid() {
+    crate::ob::c05::blank_five_invalid(&mut KaniSrc);
+}
+
+#[kani::proof]
+#[kani::unwind(15)]
+pub fn k_c05_blank_five_invalid_playback() {
+    unsafe { crate::src::REACH_OFF = true; }
+    crate::ob::c05::blank_five_invalid(&mut KaniSrc);
+}
+
+#[kani::proof]
+#[kani::unwind(27)]
+#[kani::stub(<ckc_rs::cards::five::Five as ckc_rs::cards::HandRanker>::hand_rank_value_and_hand, crate::stubs::five_vh_total)]
+pub fn k_c05_six_safe() {
+    crate::ob::c05::six_safe(&mut KaniSrc);
+}
+
+#[kani::proof]
+#[kani::unwind(27)]
+#[kani::stub(<ckc_rs::cards::five::Five as ckc_rs::cards::HandRanker>::hand_rank_value_and_hand, crate::stubs::five_vh_total)]
+pub fn k_c05_six_safe_playback() {
+    unsafe { crate::src::REACH_OFF = true; }
+    crate::ob::c05::six_safe(&mut KaniSrc);
+}
+
+#[kani::proof]
+#[kani::unwind(31)]
+#[kani::stub(<ckc_rs::cards::five::Five as ckc_rs::cards::HandRanker>::hand_rank_value_and_hand, crate::stubs::five_vh_total)]
+pub fn k_c05_seven_safe() {
+    crate::ob::c05::seven_safe(&mut KaniSrc);
+}
+
+#[kani::proof]
+#[kani::unwind(31)]
+#[kani::stub(<ckc_rs::cards::five::Five as ckc_rs::cards::HandRanker>::hand_rank_value_and_hand, crate::stubs::five_vh_total)]
+pub fn k_c05_seven_safe_playback() {
+    unsafe { crate::src::REACH_OFF = true; }
+    crate::ob::c05::seven_safe(&mut KaniSrc);
+}
+
+#[kani::proof]
+#[kani::unwind(15)]
+pub fn k_c05_find_kb() {
+    crate::ob::c05::find_kb(&mut KaniSrc);
+}
+
+#[kani::proof]
+#[kani::unwind(15)]
+pub fn k_c05_find_kb_playback() {
+    unsafe { crate::src::REACH_OFF = true; }
+    crate::ob::c05::find_kb(&mut KaniSrc);
+}
+
+#[kani::proof]
+#[kani::unwind(7)]
+pub fn k_c01_k1() {
+    crate::ob::c01::k1(&mut KaniSrc);
+}
+
+#[kani::proof]
+#[kani::unwind(7)]
+pub fn k_c01_k1_playback() {
+    unsafe { crate::src::REACH_OFF = true; }
+    crate::ob::c01::k1(&mut KaniSrc);
+}
+
+#[kani::proof]
+#[kani::unwind(7)]
+#[kani::stub(ckc_rs::cards::five::Five::find_in_products, crate::stubs::find_in_products_contract)]
+pub fn k_c01_k3() {
+    crate::ob::c01::k3(&mut KaniSrc);
+}
+
+#[kani::proof]
+#[kani::unwind(7)]
+#[kani::stub(ckc_rs::cards::five::Five::find_in_products, crate::stubs::find_in_products_contract)]
+pub fn k_c01_k3_playback() {
+    unsafe { crate::src::REACH_OFF = true; }
+    crate::ob::c01::k3(&mut KaniSrc);
+}
+
+#[kani::proof]
+#[kani::unwind(15)]
+pub fn k_c01_rep_distinct() {
+    crate::ob::c01::rep_distinct(&mut KaniSrc);
+}
+
+#[kani::proof]
+#[kani::unwind(15)]
+pub fn k_c01_rep_distinct_playback() {
+    unsafe { crate::src::REACH_OFF = true; }
+    crate::ob::c01::rep_distinct(&mut KaniSrc);
+}
+
+#[kani::proof]
+#[kani::unwind(15)]
+pub fn k_c01_rep_quads() {
+    crate::ob::c01::rep_quads(&mut KaniSrc);
+}
+
+#[kani::proof]
+#[kani::unwind(15)]
+pub fn k_c01_rep_quads_playback() {
+    unsafe { crate::src::REACH_OFF = true; }
+    crate::ob::c01::rep_quads(&mut KaniSrc);
+}
+
+#[kani::proof]
+#[kani::unwind(15)]
+pub fn k_c01_rep_full_house() {
+    crate::ob::c01::rep_full_house(&mut KaniSrc);
+}
+
+#[kani::proof]
+#[kani::unwind(15)]
+pub fn k_c01_rep_full_house_playback() {
+    unsafe { crate::src::REACH_OFF = true; }
+    crate::ob::c01::rep_full_house(&mut KaniSrc);
+}
+
+#[kani::proof]
+#[kani::unwind(15)]
+pub fn k_c01_rep_trips() {
+    crate::ob::c01::rep_trips(&mut KaniSrc);
+}
+
+#[kani::proof]
+#[kani::unwind(15)]
+pub fn k_c01_rep_trips_playback() {
+    unsafe { crate::src::REACH_OFF = true; }
+    crate::ob::c01::rep_trips(&mut KaniSrc);
+}
+
+#[kani::proof]
+#[kani::unwind(15)]
+pub fn k_c01_rep_two_pair() {
+    crate::ob::c01::rep_two_pair(&mut KaniSrc);
+}
+
+#[kani::proof]
+#[kani::unwind(15)]
+pub fn k_c01_rep_two_pair_playback() {
+    unsafe { crate::src::REACH_OFF = true; }
+    crate::ob::c01::rep_two_pair(&mut KaniSrc);
+}
+
+#[kani::proof]
+#[kani::unwind(15)]
+pub fn k_c01_rep_pair() {
+    crate::ob::c01::rep_pair(&mut KaniSrc);
+}
+
+#[kani::proof]
+#[kani::unwind(15)]
+pub fn k_c01_rep_pair_playback() {
+    unsafe { crate::src::REACH_OFF = true; }
+    crate::ob::c01::rep_pair(&mut KaniSrc);
+}
+
+#[kani::proof]
+#[kani::unwind(9)]
+#[kani::stub(<ckc_rs::cards::five::Five as ckc_rs::cards::HandRanker>::hand_rank_value_and_hand, crate::stubs::five_vh_fixed)]
+pub fn k_c01_entry_points() {
+    crate::ob::c01::entry_points(&mut KaniSrc);
+}
+
+#[kani::proof]
+#[kani::unwind(9)]
+#[kani::stub(<ckc_rs::cards::five::Five as ckc_rs::cards::HandRanker>::hand_rank_value_and_hand, crate::stubs::five_vh_fixed)]
+pub fn k_c01_entry_points_playback() {
+    unsafe { crate::src::REACH_OFF = true; }
+    crate::ob::c01::entry_points(&mut KaniSrc);
+}
+
+#[kani::proof]
+#[kani::unwind(15)]
+pub fn k_c01_direct_flush() {
+    crate::ob::c01::direct_flush(&mut KaniSrc);
+}
+
+#[kani::proof]
+#[kani::unwind(15)]
+pub fn k_c01_direct_flush_playback() {
+    unsafe { crate::src::REACH_OFF = true; }
+    crate::ob::c01::direct_flush(&mut KaniSrc);
+}
+
+#[kani::proof]
+#[kani::unwind(15)]
+pub fn k_c01_direct_distinct_nonflush() {
+    crate::ob::c01::direct_distinct_nonflush(&mut KaniSrc);
+}
+
+#[kani::proof]
+#[kani::unwind(15)]
+pub fn k_c01_direct_distinct_nonflush_playback() {
+    unsafe { crate::src::REACH_OFF = true; }
+    crate::ob::c01::direct_distinct_nonflush(&mut KaniSrc);
+}
+
+#[kani::proof]
+#[kani::unwind(15)]
+pub fn k_c01_direct_quads() {
+    crate::ob::c01::direct_quads(&mut KaniSrc);
+}
+
+#[kani::proof]
+#[kani::unwind(15)]
+pub fn k_c01_direct_quads_playback() {
+    unsafe { crate::src::REACH_OFF = true; }
+    crate::ob::c01::direct_quads(&mut KaniSrc);
+}
+
+#[kani::proof]
+#[kani::unwind(15)]
+pub fn k_c01_direct_full_house() {
+    crate::ob::c01::direct_full_house(&mut KaniSrc);
+}
+
+#[kani::proof]
+#[kani::unwind(15)]
+pub fn k_c01_direct_full_house_playback() {
+    unsafe { crate::src::REACH_OFF = true; }
+    crate::ob::c01::direct_full_house(&mut KaniSrc);
+}
+
+#[kani::proof]
+#[kani::unwind(15)]
+pub fn k_c01_direct_trips() {
+    crate::ob::c01::direct_trips(&mut KaniSrc);
+}
+
+#[kani::proof]
+#[kani::unwind(15)]
+pub fn k_c01_direct_trips_playback() {
+    unsafe { crate::src::REACH_OFF = true; }
+    crate::ob::c01::direct_trips(&mut KaniSrc);
+}
+
+#[kani::proof]
+#[kani::unwind(15)]
+pub fn k_c01_direct_two_pair() {
+    crate::ob::c01::direct_two_pair(&mut KaniSrc);
+}
+
+#[kani::proof]
+#[kani::unwind(15)]
+pub fn k_c01_direct_two_pair_playback() {
+    unsafe { crate::src::REACH_OFF = true; }
+    crate::ob::c01::direct_two_pair(&mut KaniSrc);
+}
+
+#[kani::proof]
+#[kani::unwind(15)]
+pub fn k_c01_direct_pair() {
+    crate::ob::c01::direct_pair(&mut KaniSrc);
+}
+
+#[kani::proof]
+#[kani::unwind(15)]
+pub fn k_c01_direct_pair_playback() {
+    unsafe { crate::src::REACH_OFF = true; }
+    crate::ob::c01::direct_pair(&mut KaniSrc);
+}
+
+#[kani::proof]
+#[kani::unwind(23)]
+#[kani::stub(ckc_rs::cards::five::Five::find_in_products, crate::stubs::find_in_products_contract)]
+pub fn k_c03_five_identity() {
+    crate::ob::c03::five_identity(&mut KaniSrc);
+}
+
+#[kani::proof]
+#[kani::unwind(23)]
+#[kani::stub(ckc_rs::cards::five::Five::find_in_products, crate::stubs::find_in_products_contract)]
+pub fn k_c03_five_identity_playback() {
+    unsafe { crate::src::REACH_OFF = true; }
+    crate::ob::c03::five_identity(&mut KaniSrc);
+}
+
+#[kani::proof]
+#[kani::unwind(130)]
+#[kani::stub(<ckc_rs::cards::five::Five as ckc_rs::cards::HandRanker>::hand_rank_value_and_hand, crate::stubs::five_vh_ghost_v)]
+pub fn k_c03_six_witness() {
+    crate::ob::c03::six_witness(&mut KaniSrc);
+}
+
+#[kani::proof]
+#[kani::unwind(130)]
+#[kani::stub(<ckc_rs::cards::five::Five as ckc_rs::cards::HandRanker>::hand_rank_value_and_hand, crate::stubs::five_vh_ghost_v)]
+pub fn k_c03_six_witness_playback() {
+    unsafe { crate::src::REACH_OFF = true; }
+    crate::ob::c03::six_witness(&mut KaniSrc);
+}
+
+#[kani::proof]
+#[kani::unwind(130)]
+#[kani::stub(<ckc_rs::cards::five::Five as ckc_rs::cards::HandRanker>::hand_rank_value_and_hand, crate::stubs::five_vh_ghost_v)]
+pub fn k_c03_seven_witness() {
+    crate::ob::c03::seven_witness(&mut KaniSrc);
+}
+
+#[kani::proof]
+#[kani::unwind(130)]
+#[kani::stub(<ckc_rs::cards::five::Five as ckc_rs::cards::HandRanker>::hand_rank_value_and_hand, crate::stubs::five_vh_ghost_v)]
+pub fn k_c03_seven_witness_playback() {
+    unsafe { crate::src::REACH_OFF = true; }
+    crate::ob::c03::seven_witness(&mut KaniSrc);
+}
+
+#[kani::proof]
+#[kani::unwind(130)]
+#[kani::stub(<ckc_rs::cards::five::Five as ckc_rs::cards::HandRanker>::hand_rank_value_and_hand, crate::stubs::five_vh_ghost_v)]
+pub fn k_c02_six_min() {
+    crate::ob::c02::six_min(&mut KaniSrc);
+}
+
+#[kani::proof]
+#[kani::unwind(130)]
+#[kani::stub(<ckc_rs::cards::five::Five as ckc_rs::cards::HandRanker>::hand_rank_value_and_hand, crate::stubs::five_vh_ghost_v)]
+pub fn k_c02_six_min_playback() {
+    unsafe { crate::src::REACH_OFF = true; }
+    crate::ob::c02::six_min(&mut KaniSrc);
+}
+
+#[kani::proof]
+#[kani::unwind(130)]
+#[kani::stub(<ckc_rs::cards::five::Five as ckc_rs::cards::HandRanker>::hand_rank_value_and_hand, crate::stubs::five_vh_ghost_v)]
+pub fn k_c02_seven_min() {
+    crate::ob::c02::seven_min(&mut KaniSrc);
+}
+
+#[kani::proof]
+#[kani::unwind(130)]
+#[kani::stub(<ckc_rs::cards::five::Five as ckc_rs::cards::HandRanker>::hand_rank_value_and_hand, crate::stubs::five_vh_ghost_v)]
+pub fn k_c02_seven_min_playback() {
+    unsafe { crate::src::REACH_OFF = true; }
+    crate::ob::c02::seven_min(&mut KaniSrc);
+}
+
+#[kani::proof]
+#[kani::unwind(12)]
+#[kani::stub(<ckc_rs::cards::six::Six as ckc_rs::cards::HandRanker>::hand_rank_value_and_hand, crate::stubs::six_vh_fixed)]
+pub fn k_c02_six_entry_points() {
+    crate::ob::c02::six_entry_points(&mut KaniSrc);
+}
+
+#[kani::proof]
+#[kani::unwind(12)]
+#[kani::stub(<ckc_rs::cards::six::Six as ckc_rs::cards::HandRanker>::hand_rank_value_and_hand, crate::stubs::six_vh_fixed)]
+pub fn k_c02_six_entry_points_playback() {
+    unsafe { crate::src::REACH_OFF = true; }
+    crate::ob::c02::six_entry_points(&mut KaniSrc);
+}
+
+#[kani::proof]
+#[kani::unwind(12)]
+#[kani::stub(<ckc_rs::cards::seven::Seven as ckc_rs::cards::HandRanker>::hand_rank_value_and_hand, crate::stubs::seven_vh_fixed)]
+pub fn k_c02_seven_entry_points() {
+    crate::ob::c02::seven_entry_points(&mut KaniSrc);
+}
+
+#[kani::proof]
+#[kani::unwind(12)]
+#[kani::stub(<ckc_rs::cards::seven::Seven as ckc_rs::cards::HandRanker>::hand_rank_value_and_hand, crate::stubs::seven_vh_fixed)]
+pub fn k_c02_seven_entry_points_playback() {
+    unsafe { crate::src::REACH_OFF = true; }
+    crate::ob::c02::seven_entry_points(&mut KaniSrc);
+}
+
+#[kani::proof]
+#[kani::unwind(130)]
+pub fn k_c09_min_lemma() {
+    crate::ob::c09::min_lemma(&mut KaniSrc);
+}
+
+#[kani::proof]
+#[kani::unwind(130)]
+pub fn k_c09_min_lemma_playback() {
+    unsafe { crate::src::REACH_OFF = true; }
+    crate::ob::c09::min_lemma(&mut KaniSrc);
+}
+
+#[kani::proof]
+#[kani::unwind(130)]
+#[kani::stub(<ckc_rs::cards::five::Five as ckc_rs::cards::HandRanker>::hand_rank_value_and_hand, crate::stubs::five_vh_ghost_v)]
+pub fn k_c09_direct() {
+    crate::ob::c09::direct(&mut KaniSrc);
+}
+
+#[kani::proof]
+#[kani::unwind(130)]
+#[kani::stub(<ckc_rs::cards::five::Five as ckc_rs::cards::HandRanker>::hand_rank_value_and_hand, crate::stubs::five_vh_ghost_v)]
+pub fn k_c09_direct_playback() {
+    unsafe { crate::src::REACH_OFF = true; }
+    crate::ob::c09::direct(&mut KaniSrc);
+}
+
+#[kani::proof]
+#[kani::unwind(130)]
+#[kani::stub(<ckc_rs::cards::five::Five as ckc_rs::cards::HandRanker>::hand_rank_value_and_hand, crate::stubs::five_vh_ghost_v)]
+pub fn k_c08_six_shift() {
+    crate::ob::c08::six_shift(&mut KaniSrc);
+}
+
+#[kani::proof]
+#[kani::unwind(130)]
+#[kani::stub(<ckc_rs::cards::five::Five as ckc_rs::cards::HandRanker>::hand_rank_value_and_hand, crate::stubs::five_vh_ghost_v)]
+pub fn k_c08_six_shift_playback() {
+    unsafe { crate::src::REACH_OFF = true; }
+    crate::ob::c08::six_shift(&mut KaniSrc);
+}
+
+#[kani::proof]
+#[kani::unwind(130)]
+#[kani::stub(<ckc_rs::cards::five::Five as ckc_rs::cards::HandRanker>::hand_rank_value_and_hand, crate::stubs::five_vh_ghost_v)]
+pub fn k_c08_seven_shift() {
+    crate::ob::c08::seven_shift(&mut KaniSrc);
+}
+
+#[kani::proof]
+#[kani::unwind(130)]
+#[kani::stub(<ckc_rs::cards::five::Five as ckc_rs::cards::HandRanker>::hand_rank_value_and_hand, crate::stubs::five_vh_ghost_v)]
+pub fn k_c08_seven_shift_playback() {
+    unsafe { crate::src::REACH_OFF = true; }
+    crate::ob::c08::seven_shift(&mut KaniSrc);
+}
+
+#[kani::proof]
+#[kani::unwind(15)]
+pub fn k_c08_five_shift_direct() {
+    crate::ob::c08::five_shift_direct(&mut KaniSrc);
+}
+
+#[kani::proof]
+#[kani::unwind(15)]
+pub fn k_c08_five_shift_direct_playback() {
+    unsafe { crate::src::REACH_OFF = true; }
+    crate::ob::c08::five_shift_direct(&mut KaniSrc);
 }
 
